@@ -195,7 +195,30 @@ fn observe(d: &mut Ddnnf, env: &Env, s: &mut String) {
         writeln!(s, "sv").unwrap();
     }
     writeln!(s, "{}", circuit_line(d)).unwrap();
+    cache_line(d, s);
 }
+
+/// the private bookkeeping of the clause cache, when /repo offers hook H7:
+///   cache <total|-> <old_total|-> <old_state features|-> | <edit_add clauses ;..> | <edit_rmv clauses ;..>
+#[cfg(has_h7)]
+fn cache_line(d: &Ddnnf, s: &mut String) {
+    if let Some(v) = d.verif_clause_cache_view() {
+        let o = |x: Option<u32>| x.map(|v| v.to_string()).unwrap_or("-".to_string());
+        let l = |cs: &Vec<Vec<i32>>| cs.iter().map(|c| join(c)).collect::<Vec<_>>().join(" ; ");
+        writeln!(
+            s,
+            "cache {} {} {} | {} | {}",
+            o(v.total_features),
+            o(v.old_total_features),
+            o(v.old_state_features),
+            l(&v.edit_add),
+            l(&v.edit_rmv)
+        )
+        .unwrap();
+    }
+}
+#[cfg(not(has_h7))]
+fn cache_line(_d: &Ddnnf, _s: &mut String) {}
 
 fn parse_saved(rec: &str) -> Option<(u32, Vec<Vec<i32>>)> {
     // the `sv` line of a record
@@ -224,7 +247,10 @@ fn fmt_clauses(cs: &[Vec<i32>]) -> String {
 }
 
 /// the command alphabet for a state with stored set `cur` over `n` features
-fn alphabet(n: u32, cur: &[Vec<i32>], rng: &mut Rng, small: bool) -> Vec<String> {
+/// level 0 = full alphabet, 1 = small, 2 = tiny (for the deepest trees)
+fn alphabet(n: u32, cur: &[Vec<i32>], rng: &mut Rng, level: u8) -> Vec<String> {
+    let small = level >= 1;
+    let tiny = level >= 2;
     let set: BTreeSet<BTreeSet<i32>> = cur.iter().map(|c| c.iter().copied().collect()).collect();
     let present = |c: &[i32]| set.contains(&c.iter().copied().collect::<BTreeSet<i32>>());
     // candidate clauses over 1..n, units and binary clauses first
@@ -252,7 +278,7 @@ fn alphabet(n: u32, cur: &[Vec<i32>], rng: &mut Rng, small: bool) -> Vec<String>
         // removal of an absent clause
         al.push(format!("clause-update rmv {}", fmt_clause(c)));
     }
-    if let Some(c) = absent.get(1) {
+    if let (Some(c), false) = (absent.get(1), tiny) {
         // literal order and a repeated literal do not matter: the clause is a set
         let mut w: Vec<i32> = c.iter().rev().copied().collect();
         w.push(c[0]);
@@ -261,15 +287,17 @@ fn alphabet(n: u32, cur: &[Vec<i32>], rng: &mut Rng, small: bool) -> Vec<String>
     if let Some(c) = cur.first() {
         al.push(format!("clause-update add {}", fmt_clause(c))); // already present
         al.push(format!("clause-update rmv {}", fmt_clause(c)));
-        al.push(format!("clause-update rmv {} add {}", fmt_clause(c), fmt_clause(c))); // remove and re-add
-        al.push(format!("clause-update rmv {} 0 {}", fmt_clause(c), fmt_clause(c))); // twice: rejected
+        if !tiny {
+            al.push(format!("clause-update rmv {} add {}", fmt_clause(c), fmt_clause(c))); // remove and re-add
+            al.push(format!("clause-update rmv {} 0 {}", fmt_clause(c), fmt_clause(c))); // twice: rejected
+        }
         if let Some(a) = absent.first() {
             // a present and an absent clause: rejected, the first removal must be rolled back
             al.push(format!("clause-update rmv {} 0 {}", fmt_clause(c), fmt_clause(a)));
             al.push(format!("clause-update add {} rmv {}", fmt_clause(a), fmt_clause(c)));
         }
     }
-    if cur.len() >= 2 {
+    if cur.len() >= 2 && !tiny {
         let c = cur.last().unwrap();
         al.push(format!("clause-update rmv {}", fmt_clause(c)));
         if !small {
@@ -278,7 +306,9 @@ fn alphabet(n: u32, cur: &[Vec<i32>], rng: &mut Rng, small: bool) -> Vec<String>
     }
     // feature count
     al.push(format!("clause-update t {}", n1));
-    al.push(format!("clause-update t {} add {} 1", n1, n1));
+    if !tiny {
+        al.push(format!("clause-update t {} add {} 1", n1, n1));
+    }
     if n >= 2 {
         al.push(format!("clause-update t {}", n - 1)); // rejected iff feature n is in use
         let using: Vec<Vec<i32>> = cur.iter().filter(|c| c.iter().any(|l| l.unsigned_abs() == n)).cloned().collect();
@@ -361,7 +391,7 @@ fn load(env: &Env, cnf: &Cnf, n: u32) -> Result<Ddnnf, String> {
 }
 
 /// exhaustive histories up to `depth` over the alphabet of the start state
-fn exhaustive(idbase: &str, cnf: &Cnf, n: u32, depth: usize, small: bool, env: &mut Env, rng: &mut Rng, out: &mut dyn Write) {
+fn exhaustive(idbase: &str, cnf: &Cnf, n: u32, depth: usize, level: u8, env: &mut Env, rng: &mut Rng, out: &mut dyn Write) {
     let before = standin_snapshot();
     let mut d = match load(env, cnf, n) {
         Ok(d) => d,
@@ -378,7 +408,7 @@ fn exhaustive(idbase: &str, cnf: &Cnf, n: u32, depth: usize, small: bool, env: &
     let saved = parse_saved(&rec0);
     let nocache = saved.is_none();
     let (n_now, cur) = saved.unwrap_or((n, Vec::new()));
-    let al = alphabet(n_now, &cur, rng, small);
+    let al = alphabet(n_now, &cur, rng, level);
     if nocache {
         // no clause cache at all (finding K11): a single case with every command once
         let mut s = header(&format!("{}-nocache", idbase), &format!("exhaustive depth=1 letters={}", al.len()), n, cnf);
@@ -425,7 +455,7 @@ fn random_history(id: &str, cnf: &Cnf, n: u32, len: usize, env: &mut Env, rng: &
             Some(x) => x,
             None => break,
         };
-        let mut al = alphabet(n_now, &cur, rng, false);
+        let mut al = alphabet(n_now, &cur, rng, 0);
         // the last letter makes the formula unsatisfiable and ends the history: keep it rare
         let unsat_letter = al.pop().unwrap();
         // a random wider clause now and then
@@ -494,26 +524,40 @@ pub fn run(_kind: &str, ctx: &Ctx, out: &mut dyn Write) {
             }
         }
     }
-    let depth_fixed = if quick { 3 } else { 5 };
     let mut k = 0;
     for (cnf, n) in fixed.iter() {
         if !satisfiable(cnf, *n) {
             continue;
         }
-        // depth 5 only for the two smallest alphabets; 4 for the rest
-        let depth = if quick { depth_fixed } else if k < 2 { 5 } else { 4 };
-        exhaustive(&format!("c12-f{}", k), cnf, *n, depth, depth >= 4, &mut env, &mut rng, out);
+        if quick {
+            // every history of length <= 3 over the full alphabet
+            exhaustive(&format!("c12-f{}", k), cnf, *n, 3, 0, &mut env, &mut rng, out);
+        } else if k == 0 {
+            // length <= 5 over the tiny alphabet, and length <= 4 over the full one
+            exhaustive(&format!("c12-f{}x5", k), cnf, *n, 5, 2, &mut env, &mut rng, out);
+            exhaustive(&format!("c12-f{}", k), cnf, *n, 4, 0, &mut env, &mut rng, out);
+        } else {
+            exhaustive(&format!("c12-f{}", k), cnf, *n, 4, 1, &mut env, &mut rng, out);
+        }
         k += 1;
     }
-    // all functions: depth 2 (quick) / 3 (thorough); a seeded sample one level deeper
-    let base_depth = if quick { 2 } else { 3 };
+    // every function: length <= 2 (quick) / 3 for a seeded half, 2 for the rest (thorough);
+    // a seeded sample one level deeper
     let mut order: Vec<usize> = (0..tables.len()).collect();
     rng.shuffle(&mut order);
-    let deeper = if quick { 10 } else { 40 };
+    let deeper = if quick { 10 } else { 4 };
     for (pos, &i) in order.iter().enumerate() {
         let (cnf, n) = &tables[i];
-        let depth = if pos < deeper { base_depth + 1 } else { base_depth };
-        exhaustive(&format!("c12-t{}", i), cnf, *n, depth, true, &mut env, &mut rng, out);
+        let depth = if quick {
+            if pos < deeper { 3 } else { 2 }
+        } else if pos < deeper {
+            4
+        } else if *n <= 2 || pos < 90 {
+            3
+        } else {
+            2
+        };
+        exhaustive(&format!("c12-t{}", i), cnf, *n, depth, 1, &mut env, &mut rng, out);
     }
 
     // ---- random longer histories on up to 8 (quick) / 10 (thorough) variables
